@@ -124,7 +124,7 @@ def Bool(name):
     return v
 
 
-def Array(name, shape, kind='f', bits=64):
+def Array(name, shape, kind='f', bits=64, lo=None, hi=None):
     shape = tuple(int(d) for d in shape)
     vals = ctx.model.get(name + '.values')
     mshape = ctx.model.get(name + '.shape')
@@ -153,6 +153,14 @@ def Array(name, shape, kind='f', bits=64):
         else:
             a = ctx.nrng.random(shape) < 0.5
         a = np.asarray(a).astype(dt)
+    if lo is not None or hi is not None:
+        lo_ = lo if lo is not None else (hi - 10)
+        hi_ = hi if hi is not None else (lo + 10)
+        if kind in 'iu':
+            a = (np.abs(a.astype(np.int64)) % (int(hi_) - int(lo_) + 1) + int(lo_)).astype(dt)
+        else:
+            a = np.clip(a, lo_, hi_) if (a.min() < lo_ or a.max() > hi_) and vals is not None else \
+                (lo_ + (hi_ - lo_) * ctx.nrng.random(shape)).astype(dt) if vals is None else a
     ctx.drawn[name] = {'shape': list(shape)}
     return a
 
@@ -381,3 +389,52 @@ def run_concrete(fn, variant, model=None, seed=0, max_runs=20000):
             break
         choices = ctx.choices
     return failures, nruns, nchecks, status
+
+
+class noise:
+    """concrete twin of symbolic.noise: swaps np.random behind prysm.mathops' backend shim."""
+    def __init__(self, kind):
+        self.kind = kind
+        self.shot = None
+        self.read = None
+
+    def __enter__(self):
+        install()
+        from prysm import mathops
+        outer = self
+        real = mathops._np
+
+        class _R:
+            def poisson(self_, lam=1.0, size=None):
+                if outer.kind == 'free':
+                    outer.shot = np.broadcast_to(np.asarray(lam, dtype=float), size).copy()
+                else:
+                    outer.shot = ctx.nrng.poisson(np.maximum(np.asarray(lam, dtype=float), 0), size)
+                    key = 'shot.values'
+                    if key in ctx.model and len(ctx.model[key]) == outer.shot.size:
+                        outer.shot = np.array(ctx.model[key]).reshape(outer.shot.shape).astype(np.int64)
+                return outer.shot
+
+            def normal(self_, loc=0.0, scale=1.0, size=None):
+                if outer.kind == 'free':
+                    outer.read = np.zeros(size)
+                else:
+                    outer.read = ctx.nrng.normal(loc, scale if scale > 0 else 1.0, size)
+                    key = 'read.values'
+                    if key in ctx.model and len(ctx.model[key]) == outer.read.size:
+                        outer.read = np.array(ctx.model[key], dtype=float).reshape(outer.read.shape)
+                return outer.read
+
+        class _Proxy:
+            random = _R()
+
+            def __getattr__(self_, k):
+                return getattr(real, k)
+        self._old = mathops.np._srcmodule
+        mathops.np._srcmodule = _Proxy()
+        return self
+
+    def __exit__(self, *a):
+        from prysm import mathops
+        mathops.np._srcmodule = self._old
+        return False
